@@ -9,6 +9,8 @@ from wire import CRec
 TABLES = []
 LAKE_TARGETS = ["Moclo.Props.C03"]
 THEOREMS = ["Moclo.C03." + t for t in ["ok_sound", "ok_complete", "error_classes", "order_independent"]]
+# reductions under which a failing case stays a case of this property (see shrink.py)
+SHRINK = {"lists": ["mods", "lower"]}
 RULE = ("real plasmids over a 2-nt cutter for every (start, end) pair of the overhang alphabet "
         "{AA,TT,AC,GT,AT,CG,CA} (equal, reverse-complementary and palindromic overhangs); all multisets of <= 2 "
         "modules (quick) / <= 3 (thorough) x 6 vectors x all argument orders, plus random multisets of 3-5 modules "
@@ -72,8 +74,11 @@ def check_case(ctx, case):
     mods = [tuple(m) for m in case["mods"]]
     v = EntSpec(0, V, CRec(0, P["vecs"][(vdown, vup)], [], []), False)
     lower = set(case.get("lower", []))
-    ents = [EntSpec(i, M, CRec(i, P["mods"][(s, e)].lower() if i in lower else P["mods"][(s, e)], [], []), False)
-            for (s, e, i) in mods]
+    # `same_id`: the supplied records all carry one identifier (unnamed records, revisions of one accession):
+    # which modules clash is a matter of overhangs and objects, never of names
+    same = bool(case.get("same_id"))
+    ents = [EntSpec(i, M, CRec(77 if same else i, P["mods"][(s, e)].lower() if i in lower else P["mods"][(s, e)], [], []),
+                    False) for (s, e, i) in mods]
     op = ("ASM", 1, 1, v, ents)
     reply, prod, _ = impl.run_asm(op)
     f = reply.split("\t")
@@ -86,20 +91,25 @@ def check_case(ctx, case):
         r = impl.dec_rec(f[1])
         chain = [int(x.qual[1:]) for x in r.feats if x.ftype == 0 and x.qual.startswith("s") and x.qual != "s0"]
         got = ("ok", chain, sorted(int(x) for x in impl.dec_list(",", f[6])))
+    if same and got[0] == "ok" and exp[0] == "ok":
+        got = ("ok", len(got[1]), got[2])           # the chain cannot be read off source features that share a name
+        exp = ("ok", len(exp[1]), exp[2])
     if got != exp:
         ctx.fail("vector down={} up={} with modules {}: implementation gives {} but the overhang graph says {}".format(
             vdown, vup, mods, got, exp), case)
     if exp[0] == "ok" and prod is None:
         ctx.fail("no record returned", case)
     ctx.note("outcome:" + exp[0])
-    ctx.case(case, nontrivial=True, key=[case["vector"], sorted(mods), exp[0], len(exp[1]) if exp[0] == "ok" else 0])
+    ctx.case(case, nontrivial=True, key=[case["vector"], sorted(mods), exp[0],
+                                             (exp[1] if isinstance(exp[1], int) else len(exp[1])) if exp[0] == "ok" else 0, same])
     if got[0] == "ok":
-        greply = "\t".join(["ok", impl.enc_list(",", got[1]), impl.enc_list(",", got[2])])
+        greply = None if same else "\t".join(["ok", impl.enc_list(",", got[1]), impl.enc_list(",", got[2])])
     elif got[0] == "missing":
         greply = "missing:" + got[1]
     else:
         greply = got[0]
-    ctx.op(("GRAPH", vup, vdown, mods), case, reply=greply)
+    if greply is not None:
+        ctx.op(("GRAPH", vup, vdown, mods), case, reply=greply)
     if case.get("asm_corr"):
         ctx.op(op, case, reply=reply)
 
@@ -134,7 +144,9 @@ def run(ctx):
             mods.append(list(rng.choice(mods)))        # the same object twice
         rng.shuffle(mods)
         lower = [m[2] for m in mods if rng.random() < 0.3] if rng.random() < 0.5 else []
-        ctx.guard(check_case, {"vector": list(vec), "mods": mods, "asm_corr": rng.random() < 0.2, "lower": lower})
+        same = rng.random() < 0.25
+        ctx.guard(check_case, {"vector": list(vec), "mods": mods, "asm_corr": (not same) and rng.random() < 0.2,
+                               "lower": lower, "same_id": same})
     # reverse-complementary / equal start overhangs spelt in different cases, in every argument order
     for _ in range(ctx.budget(150, 3000)):
         vec = rng.choice([v for v in VECTORS if v[0] != v[1]])
